@@ -30,6 +30,15 @@ Lines: `sent s<i> <j> <outcome>`, `aux <thread> <op> <distinct outcome>`, `final
 No wall-clock criterion is used for the verdict.  A thread that is not back after a very generous deadline makes the
 whole case run a second time: not back again = `hang …` (a verdict: the call never returns); back = infrastructure
 error, not a violation.
+
+Round 6, target `mthreads`: 2-3 client OBJECTS (TCP / UDP mixed), each a complete thread case of the above format with its own
+socket pair, senders, auxiliary threads and peer, all running at the same time in the process (`run_multi_threads`).  Lines
+`o<k> <line>` = the lines of object k; the oracle of every object is the unchanged one-object oracle.  One object may be the
+`gater`: where its plan says `parks`, its sender is parked in the middle of a packet (its client's lock held) not for a fixed
+time but UNTIL a send_packet call made by a thread of ANOTHER client object has returned normally (or no other client has a
+sender left): what one client's lock protects must not keep another client from sending.  `note gated <n>` = n such parks saw
+another client complete a send.  If nobody else completes a send within the deadline although their senders are still
+running, the case is run a second time: again = `hang`, a verdict; otherwise infrastructure error.
 """
 from __future__ import annotations
 
@@ -48,6 +57,8 @@ from easynetwork.clients.udp import UDPNetworkClient
 from easynetwork.protocol import DatagramProtocol
 
 DEADLINE = 30.0
+GATE_DEADLINE = 10.0        # a gated park (target mthreads) waits at most that long for another client to complete a send
+_gate_confirmed = False     # a stalled gate was seen twice in a row (a verdict): later gates of this process wait 1 s only
 DRAIN_TIMEOUT = 5.0
 SENTINEL = b"\xff\x00END-OF-RUN\x00\xff"
 
@@ -65,8 +76,90 @@ class _Hang(Exception):
         self.who = who
 
 
+class _FastSwitch:
+    """sys.setswitchinterval(1e-6) while at least one stress run is in its sending phase (several runs may overlap)"""
+
+    _lock = threading.Lock()
+    _n = 0
+    _old = 0.005
+
+    @classmethod
+    def enter(cls) -> None:
+        with cls._lock:
+            if cls._n == 0:
+                cls._old = sys.getswitchinterval()
+                sys.setswitchinterval(1e-6)
+            cls._n += 1
+
+    @classmethod
+    def leave(cls) -> None:
+        with cls._lock:
+            cls._n -= 1
+            if cls._n == 0:
+                sys.setswitchinterval(cls._old)
+
+
+class _Hub:
+    """what the client objects of one `mthreads` run share (harness side only): who has completed sends, who still has senders"""
+
+    def __init__(self, nsenders: list[int], gater: int | None) -> None:
+        self.cond = threading.Condition()
+        self.ok_sends = [0] * len(nsenders)
+        self.active = list(nsenders)
+        self.gater = gater
+        self.gated = 0
+        self.stalled: str | None = None
+        # the senders of the other clients make their first call once the gater is parked for the first time (or has no sender left)
+        self.first_park = threading.Event()
+        if self.gater is None or not nsenders[self.gater]:
+            self.first_park.set()
+
+    def sent_ok(self, k: int) -> None:
+        with self.cond:
+            self.ok_sends[k] += 1
+            self.cond.notify_all()
+
+    def sender_exit(self, k: int) -> None:
+        with self.cond:
+            self.active[k] = max(0, self.active[k] - 1)
+            if k == self.gater and not self.active[k]:
+                self.first_park.set()
+            self.cond.notify_all()
+
+    def object_done(self, k: int) -> None:
+        with self.cond:
+            self.active[k] = 0
+            if k == self.gater:
+                self.first_park.set()
+            self.cond.notify_all()
+
+    def wait_for_others(self, k: int, deadline: float) -> None:
+        """called by a sender of object k in the middle of a packet, its client's lock held"""
+        self.first_park.set()
+        with self.cond:
+            snap = sum(self.ok_sends) - self.ok_sends[k]
+            while True:
+                if sum(self.ok_sends) - self.ok_sends[k] > snap:
+                    self.gated += 1
+                    return
+                if sum(self.active) - self.active[k] <= 0:
+                    return
+                left = deadline - time.monotonic()
+                if left <= 0:
+                    if self.stalled is None:
+                        busy = [f"o{j}" for j, n in enumerate(self.active) if j != k and n > 0]
+                        self.stalled = (f"no send_packet call on {','.join(busy)} completed while a sender of o{k} was parked "
+                                        "in the middle of a packet")
+                    return
+                self.cond.wait(min(left, 1.0))
+
+
 class _State:
     """what the socket wrapper and the threads share during one run"""
+
+    hub: _Hub | None = None
+    me = 0
+    t_end = 0.0
 
     def __init__(self, case: dict, nthreads: int) -> None:
         self.sizes: list[int] = case.get("sizes") or [1]
@@ -86,7 +179,10 @@ class _State:
     def park(self) -> None:
         before = sum(self.started)
         inside = any(self.incall)
-        time.sleep(self.park_s)
+        if self.hub is not None and self.hub.gater == self.me:
+            self.hub.wait_for_others(self.me, self.t_end)
+        else:
+            time.sleep(self.park_s)
         if inside or sum(self.started) > before or any(self.incall):
             self.aux_window = True
 
@@ -308,7 +404,7 @@ def _run_guarded(case: dict) -> list[str]:
     raise core.InfraError(f"C12 thread stress run did not finish within the deadline ({first}); it did on the retry")
 
 
-def _run_once(case: dict) -> list[str]:
+def _run_once(case: dict, hub: _Hub | None = None, me: int = 0) -> list[str]:
     spec = case["spec"]
     kind = case["target"]
     tcp = kind == "tcp"
@@ -316,6 +412,7 @@ def _run_once(case: dict) -> list[str]:
     auxs = case.get("aux") or []
     nthreads = len(senders) + len(auxs)
     st = _State(case, nthreads)
+    st.hub, st.me = hub, me
     lines: list[str] = []
     lock = threading.Lock()
     if tcp:
@@ -344,6 +441,7 @@ def _run_once(case: dict) -> list[str]:
     peer_sent_all = threading.Event()
     end_seen = threading.Event()
     t_end = time.monotonic() + DEADLINE
+    st.t_end = time.monotonic() + (1.0 if _gate_confirmed else GATE_DEADLINE)
     peer.settimeout(0.005)
 
     def peer_loop() -> None:
@@ -387,12 +485,21 @@ def _run_once(case: dict) -> list[str]:
         aux_out.setdefault(name, {}).setdefault(op, set()).add(res)
 
     def sender(i: int, s: dict) -> None:
+        try:
+            sender_body(i, s)
+        finally:
+            if hub is not None:
+                hub.sender_exit(me)
+
+    def sender_body(i: int, s: dict) -> None:
         name = f"s{i}"
         sink = arx.setdefault(name, [])
         try:
             barrier.wait(timeout=DEADLINE)
         except threading.BrokenBarrierError:
             return
+        if hub is not None and hub.gater != me:
+            hub.first_park.wait(DEADLINE)
         for j, h in enumerate(s["packets"]):
             out = None
             idi = _idiom(s, j)
@@ -418,6 +525,8 @@ def _run_once(case: dict) -> list[str]:
                     note(name, "send_packet", _exc(e))
                 else:
                     out = "ok"
+                    if hub is not None:
+                        hub.sent_ok(me)
             with lock:
                 lines.append(f"sent s{i} {j} {out}")
 
@@ -447,8 +556,14 @@ def _run_once(case: dict) -> list[str]:
 
     final: list[str] = []
     hang: str | None = None
-    old = sys.getswitchinterval()
-    sys.setswitchinterval(1e-6)
+    fast = [True]
+
+    def slow_down() -> None:
+        if fast[0]:
+            fast[0] = False
+            _FastSwitch.leave()
+
+    _FastSwitch.enter()
     try:
         rt = threading.Thread(target=peer_loop, daemon=True)
         rt.start()
@@ -464,7 +579,7 @@ def _run_once(case: dict) -> list[str]:
         stuck = [n for n, t in ths + aths if t.is_alive()]
         if stuck:
             raise _Hang(",".join(stuck))
-        sys.setswitchinterval(old)
+        slow_down()
         # ---- final phase: what the peer sent comes out, send_eof / close work, the state is right afterwards
         if peer_out:
             # (a receive call that already failed explains a missing packet: no point in waiting for it)
@@ -493,7 +608,7 @@ def _run_once(case: dict) -> list[str]:
     except _Hang as h:
         hang = h.who
     finally:
-        sys.setswitchinterval(old)
+        slow_down()
         stop.set()
         for s_ in (csock, peer):
             try:
@@ -538,6 +653,107 @@ def _run_once(case: dict) -> list[str]:
     if st.aux_window:
         lines.append("note aux-window")
     return lines
+
+
+# ------------------------------------------------------------------------------------------------
+# round 6: several client objects at the same time
+# ------------------------------------------------------------------------------------------------
+
+def run_multi_threads(case: dict) -> list[str]:
+    lines: list[str] = []
+    for _ in range(max(1, int(case.get("tries", 1)))):
+        lines = _multi_guarded(case)
+        if multi_oracle(case, lines):
+            break
+    return lines
+
+
+def _multi_guarded(case: dict) -> list[str]:
+    try:
+        return _multi_once(case)
+    except _Hang as h1:
+        first = h1.who
+    try:
+        _multi_once(case)
+    except _Hang as h2:
+        if h2.who.startswith("no send_packet call") and first.startswith("no send_packet call"):
+            global _gate_confirmed
+            _gate_confirmed = True
+        return [f"hang {h2.who}"]
+    raise core.InfraError(f"C12 multi-client thread run did not finish within the deadline ({first}); it did on the retry")
+
+
+def _multi_once(case: dict) -> list[str]:
+    objs = case["objects"]
+    gater = case.get("gater")
+    hub = _Hub([len(o["senders"]) for o in objs], gater if isinstance(gater, int) and 0 <= gater < len(objs) else None)
+    results: list[Any] = [None] * len(objs)
+
+    def run(k: int) -> None:
+        try:
+            results[k] = ("ok", _run_once(objs[k], hub, k))
+        except _Hang as h:
+            results[k] = ("hang", h.who)
+        except BaseException as e:
+            results[k] = ("exc", e)
+        finally:
+            hub.object_done(k)
+
+    ths = [threading.Thread(target=run, args=(k,), daemon=True) for k in range(len(objs))]
+    t_end = time.monotonic() + 2 * DEADLINE + 20
+    for t in ths:
+        t.start()
+    for t in ths:
+        t.join(max(0.5, t_end - time.monotonic()))
+    if any(t.is_alive() for t in ths):
+        raise _Hang("the run of " + ",".join(f"o{k}" for k, t in enumerate(ths) if t.is_alive()))
+    if hub.stalled:
+        raise _Hang(hub.stalled)
+    for k, r in enumerate(results):
+        if r[0] == "hang":
+            raise _Hang(f"o{k}: {r[1]}")
+    for r in results:
+        if r[0] == "exc":
+            raise r[1]
+    out: list[str] = []
+    for k, r in enumerate(results):
+        out.extend(f"o{k} {ln}" for ln in r[1])
+    out.append(f"note gated {hub.gated}")
+    return out
+
+
+def _split(real: list[str]) -> dict[int, list[str]]:
+    per: dict[int, list[str]] = {}
+    for ln in real:
+        if ln.startswith("o") and " " in ln and ln[1:ln.index(" ")].isdigit():
+            k, _, body = ln.partition(" ")
+            per.setdefault(int(k[1:]), []).append(body)
+    return per
+
+
+def multi_oracle(case: dict, real: list[str]) -> str | None:
+    hang = [ln for ln in real if ln.startswith("hang ")]
+    if hang:
+        return (f"deadlock: {hang[0][5:]} (two runs in a row, deadlines {GATE_DEADLINE:.0f} s for a parked sender to see another "
+                f"client complete a send, {DEADLINE:.0f} s for a thread to come back): client objects used by different threads "
+                "must not wait for each other")
+    per = _split(real)
+    for k, sub in enumerate(case["objects"]):
+        why = oracle(sub, per.get(k, []))
+        if why:
+            others = ", ".join(f"o{j} {o['target']}" for j, o in enumerate(case["objects"]) if j != k)
+            return f"object o{k} ({sub['target']} client; next to {others}): {why}"
+    return None
+
+
+def multi_nontrivial(case: dict, real: list[str]) -> str | None:
+    per = _split(real)
+    gated = next((int(ln.split()[2]) for ln in real if ln.startswith("note gated ")), 0)
+    live = sum(1 for ls in per.values() if "note contended" in ls or "note aux-window" in ls)
+    if not gated and live < 2:
+        return None
+    kinds = "+".join(sorted({o["target"] for o in case["objects"]}))
+    return f"mthreads/{kinds}/" + ("gated" if gated else "contended")
 
 
 def _step(fn, what: str, t_end: float) -> str:
